@@ -430,3 +430,218 @@ def dryrun_case(case):
         return res
     finally:
         shutil.rmtree(root, ignore_errors=True)
+
+
+# ------------------------------------------------------------------------------------------------
+# C13: --backup yields a restorable bundle, written before anything is modified
+
+def backup_case(case):
+    root = tempfile.mkdtemp(prefix='frrs-bak-')
+    res = dict(id=case['id'], failures=[], dist={})
+    def count(k): res['dist'][k] = res['dist'].get(k, 0) + 1
+    try:
+        origin, marks = build_repo(case, root)
+        aux = write_aux(case, root, marks)
+        k = case['id']
+        repo = origin
+        if k % 3 == 1:
+            repo = os.path.join(root, 'clone')
+            subprocess.run(['git', 'clone', '-q', '--no-local', origin, repo], check=True, env=GIT_ENV, stdout=subprocess.DEVNULL, stderr=subprocess.DEVNULL)
+            count('layout-clone-with-origin')
+        if k % 5 == 2 and refs(repo):
+            git(repo, 'checkout', '-q', '--detach', check=False)
+            count('detached-head')
+        cli = [a.replace('@AUX@', aux) for a in case['cli']]
+        form = k % 4
+        bargs = ['--backup']
+        expect = None
+        if form == 1:
+            d = os.path.join(root, 'bk dir'); bargs += ['--backup-path', d]; expect = ('dir', d); count('backup-path-directory')
+        elif form == 2:
+            f = os.path.join(root, 'out', 'my.bundle'); bargs += ['--backup-path', f]; expect = ('file', f); count('backup-path-file')
+        elif form == 3:
+            blocker = os.path.join(root, 'blocker'); open(blocker, 'w').write('x')
+            bargs += ['--backup-path', os.path.join(blocker, 'sub', 'x.bundle')]; expect = ('unwritable', None); count('backup-path-unwritable')
+        else:
+            expect = ('default', os.path.join(repo, '.git', 'filter-repo')); count('backup-default-location')
+        before_refs = refs(repo)
+        before_head = git(repo, 'rev-parse', 'HEAD', check=False).decode().strip()
+        before_snapshot = full_snapshot(repo) if expect[0] == 'unwritable' else None
+        all_objects = set(l.split(' ')[0] for l in git(repo, 'cat-file', '--batch-all-objects', '--batch-check').decode().splitlines())
+        reachable = set(x.split(' ')[0] for x in git(repo, 'rev-list', '--objects', '--all').decode('latin1').splitlines()) if before_refs else set()
+        rc, out, err, dt = run_tool(repo, ['--force'] + bargs + cli)
+        if expect[0] == 'unwritable':
+            after = full_snapshot(repo)
+            if rc == 0:
+                res['failures'].append(('C13', 'the bundle could not be created but the run reported success'))
+            changed = [key for key in before_snapshot if key != 'gitdir' and before_snapshot[key] != after[key]]
+            if changed:
+                res['failures'].append(('C13', f'the bundle could not be created but {changed} changed'))
+            count('unwritable-refused' if rc != 0 else 'unwritable-accepted')
+            return res
+        if not before_refs:
+            count('no-refs')
+            return res
+        # locate the bundle
+        if expect[0] == 'file':
+            bundle = expect[1] if os.path.exists(expect[1]) else None
+        else:
+            d = expect[1]
+            cands = [os.path.join(d, f) for f in os.listdir(d)] if os.path.isdir(d) else []
+            cands = [c for c in cands if c.endswith('.bundle')]
+            bundle = cands[0] if len(cands) == 1 else None
+        if bundle is None:
+            # a failed run may legitimately stop later; the bundle must exist whenever the run got past the backup step
+            res['failures'].append(('C13', f'no bundle found at the expected location ({expect}); tool rc={rc}; {err.decode("utf-8","replace")[-200:]}'))
+            return res
+        count('bundle-written')
+        v = subprocess.run(['git', '-C', repo, 'bundle', 'verify', bundle], stdout=subprocess.PIPE, stderr=subprocess.PIPE, env=GIT_ENV)
+        if v.returncode != 0:
+            res['failures'].append(('C13', 'git bundle verify fails: ' + v.stderr.decode('utf-8', 'replace')[-200:]))
+        heads = {}
+        for l in subprocess.run(['git', 'bundle', 'list-heads', bundle], stdout=subprocess.PIPE, env=GIT_ENV, cwd=root).stdout.decode().splitlines():
+            sha, name = l.split(' ', 1)
+            heads[name] = sha
+        want = {n: v[0] for n, v in before_refs.items()}
+        got = {n: s for n, s in heads.items() if n != 'HEAD'}
+        if got != want:
+            diff = [(n, want.get(n), got.get(n)) for n in set(want) | set(got) if want.get(n) != got.get(n)][:4]
+            res['failures'].append(('C13', f'the bundle does not advertise every pre-run ref with its pre-run id: {diff}'))
+        # restorable: a mirror clone of the bundle has every object that was reachable before
+        rest = os.path.join(root, 'restored.git')
+        c = subprocess.run(['git', 'clone', '-q', '--mirror', bundle, rest], stdout=subprocess.PIPE, stderr=subprocess.PIPE, env=GIT_ENV)
+        if c.returncode != 0:
+            res['failures'].append(('C13', 'cloning the bundle fails: ' + c.stderr.decode('utf-8', 'replace')[-200:]))
+        else:
+            f = subprocess.run(['git', '-C', rest, 'fsck', '--no-dangling'], stdout=subprocess.PIPE, stderr=subprocess.PIPE, env=GIT_ENV)
+            if f.returncode != 0:
+                res['failures'].append(('C13', 'fsck of the restored repository fails: ' + f.stderr.decode('utf-8', 'replace')[-200:]))
+            have = set(l.split(' ')[0] for l in git(rest, 'cat-file', '--batch-all-objects', '--batch-check').decode().splitlines())
+            missing = reachable - have
+            if missing:
+                res['failures'].append(('C13', f'{len(missing)} pre-run reachable objects are not recoverable from the bundle, e.g. {sorted(missing)[:2]}'))
+            count('restored-and-complete')
+        return res
+    except Exception as e:
+        res['error'] = repr(e)[:400]
+        return res
+    finally:
+        shutil.rmtree(root, ignore_errors=True)
+
+
+# ------------------------------------------------------------------------------------------------
+# C12: every subset of the documented freshness violations applied to a fresh clone
+
+VIOLATIONS = ['unstaged', 'staged', 'untracked', 'stash', 'reflog', 'worktree', 'remote', 'unpushed', 'loose']
+ERR_KEYS = [('Working tree is not clean', 'working-tree-not-clean'), ('Untracked files present', 'untracked-files'),
+            ('Git directory structure', 'git-dir-structure'), ('conflicts could cause', 'reference-conflict'),
+            ('at most one entry per reflog', 'reflog-too-many'), ('Unpushed changes detected', 'unpushed-changes'),
+            ('not freshly packed', 'not-freshly-packed'), ('Invalid remote configuration', 'invalid-remotes'),
+            ('Stashed changes present', 'stashed-changes'), ('Multiple worktrees found', 'multiple-worktrees')]
+
+
+def gather_facts(repo, bare):
+    """the repository facts the pre-flight looks at, gathered independently with plumbing"""
+    f = {'bare': int(bare)}
+    if not bare:
+        f['staged'] = int(subprocess.run(['git', '-C', repo, 'diff', '--staged', '--quiet'], env=GIT_ENV).returncode == 1)
+        f['unstaged'] = int(subprocess.run(['git', '-C', repo, 'diff', '--quiet'], env=GIT_ENV).returncode == 1)
+        f['untracked'] = int(bool(git(repo, 'ls-files', '-o', '--exclude-standard', '--directory').strip()))
+    rr = refs(repo)
+    enc = lambda items: ','.join(f'{enhex(n.encode())}:{enhex(v.encode())}' for n, v in items) or '-'
+    f['locals'] = enc((n[len('refs/heads/'):], v[0]) for n, v in sorted(rr.items()) if n.startswith('refs/heads/'))
+    f['origins'] = enc((n[len('refs/remotes/origin/'):], v[0]) for n, v in sorted(rr.items()) if n.startswith('refs/remotes/origin/'))
+    gd = git(repo, 'rev-parse', '--git-dir').decode().strip()
+    gd = gd if os.path.isabs(gd) else os.path.join(repo, gd)
+    mx = 0
+    logs = os.path.join(gd, 'logs', 'refs')       # the reflogs of refs (logs/HEAD is not a ref's reflog)
+    for root, _, files in os.walk(logs):
+        for fn in files:
+            n = sum(1 for _ in open(os.path.join(root, fn), 'rb'))
+            mx = max(mx, n)
+    f['reflogmax'] = mx
+    co = dict(l.split(': ') for l in git(repo, 'count-objects', '-v').decode().splitlines())
+    f['packs'], f['loose'] = int(co['packs']), int(co['count'])
+    f['replace'] = len([n for n in rr if n.startswith('refs/replace/')])
+    rem = [r for r in git(repo, 'remote').decode().split('\n') if r]
+    f['remotes'] = ','.join(enhex(r.encode()) for r in rem) or '-'
+    f['stash'] = int('refs/stash' in rr)
+    f['worktrees'] = len(git(repo, 'worktree', 'list').decode().splitlines())
+    return f
+
+
+def sanity_case(case):
+    """case = dict(id, mask, bare): a fresh clone with the violations of `mask` applied"""
+    root = tempfile.mkdtemp(prefix='frrs-san-')
+    res = dict(id=case['id'], failures=[], dist={})
+    def count(k): res['dist'][k] = res['dist'].get(k, 0) + 1
+    try:
+        src = os.path.join(root, 'src')
+        subprocess.run(['git', 'init', '-q', '-b', 'main', src], check=True, env=GIT_ENV)
+        sh = lambda d, s: subprocess.run(['bash', '-c', 'set -e\n' + s], cwd=d, check=True, env=GIT_ENV, stdout=subprocess.DEVNULL, stderr=subprocess.DEVNULL)
+        sh(src, 'git config user.name T; git config user.email t@e; echo a > a; echo b > b; git add .; git commit -q -m c1; echo c >> a; git commit -q -am c2; git branch side HEAD~1; git tag v1')
+        bare = case['bare']
+        repo = os.path.join(root, 'clone.git' if bare else 'clone')
+        subprocess.run(['git', 'clone', '-q', '--no-local'] + (['--bare'] if bare else []) + [src, repo], check=True, env=GIT_ENV, stderr=subprocess.DEVNULL)
+        if not bare:
+            sh(repo, 'git config user.name T; git config user.email t@e')
+        applied = [v for i, v in enumerate(VIOLATIONS) if case['mask'] >> i & 1]
+        if case.get('ignorecase'):
+            sh(repo, 'git config core.ignorecase true; git config core.precomposeunicode true')
+        for v in applied:
+            if v == 'stash' and not bare: sh(repo, 'echo s >> b; git stash -q')
+        for v in applied:
+            if bare and v in ('unstaged', 'staged', 'untracked', 'stash', 'worktree'):
+                continue
+            if v == 'unstaged': sh(repo, 'echo x >> a')
+            elif v == 'staged': sh(repo, 'echo y > staged.txt; git add staged.txt')
+            elif v == 'untracked': sh(repo, 'echo z > untracked.txt')
+            elif v == 'reflog':
+                if bare: sh(repo, 'h=$(git rev-parse refs/heads/main); mkdir -p logs/refs/heads; printf "%s %s T <t@e> 1 +0000\\tx\\n%s %s T <t@e> 2 +0000\\ty\\n" $h $h $h $h > logs/refs/heads/main')
+                else: sh(repo, 'h=$(git rev-parse refs/remotes/origin/main); p=$(git rev-parse "$h~1"); git update-ref -m back refs/remotes/origin/main $p; git update-ref -m forth refs/remotes/origin/main $h')
+            elif v == 'worktree': sh(repo, 'git worktree add -q --detach ../wt HEAD')
+            elif v == 'remote': sh(repo, 'git remote add other https://example.invalid/x.git')
+            elif v == 'unpushed':
+                if bare: continue
+                sh(repo, 'git branch newlocal HEAD')
+            elif v == 'loose': sh(repo, 'echo loose-object | git hash-object -w --stdin')
+        facts = gather_facts(repo, bare)
+        if case.get('ignorecase'):
+            facts['note'] = 'ignorecase'
+        fstr = ';'.join(f'{k}={v}' for k, v in facts.items() if k != 'note')
+        predicted = model().ask(f'preflight 0 {fstr}')
+        before = full_snapshot(repo) if not bare else dict(refs=refs(repo), objects=git(repo, 'cat-file', '--batch-all-objects', '--batch-check'))
+        rc, out, err, dt = run_tool(repo, ['--path', 'a'])
+        after = full_snapshot(repo) if not bare else dict(refs=refs(repo), objects=git(repo, 'cat-file', '--batch-all-objects', '--batch-check'))
+        text = err.decode('utf-8', 'replace')
+        observed = 'accept' if rc == 0 else next((name for key, name in ERR_KEYS if key in text), 'other:' + text.strip().splitlines()[0][:80] if text.strip() else 'other')
+        count('accepted' if rc == 0 else 'refused')
+        count('violations-%d' % len(applied))
+        if observed != predicted:
+            res['failures'].append(('C12', f'violations {applied} (bare={bare}): the model of the pre-flight predicts {predicted}, the tool answered {observed}; facts {fstr}'))
+        # the statement itself: any applied violation must be refused; a pristine clone accepted
+        effective = [v for v in applied if not (bare and v in ('unstaged', 'staged', 'untracked', 'stash', 'worktree', 'unpushed'))]
+        if effective and rc == 0:
+            res['failures'].append(('C12', f'violations {effective} (bare={bare}) were accepted without --force'))
+        if not applied and rc != 0:
+            res['failures'].append(('C12', f'a fresh clone (bare={bare}) was refused: {text.strip()[:200]}'))
+        if rc != 0:
+            changed = [k for k in before if before[k] != after[k] and k != 'gitdir']
+            if changed:
+                res['failures'].append(('C12', f'the refused run changed {changed}'))
+            if not bare:
+                gd_changed = [k for k in set(before['gitdir']) | set(after['gitdir']) if before['gitdir'].get(k) != after['gitdir'].get(k)]
+                if gd_changed:
+                    res['failures'].append(('C12', f'the refused run changed files under .git: {gd_changed[:4]}'))
+        # --force bypasses
+        if rc != 0 and case['id'] % 8 == 0:
+            rc2, _, _, _ = run_tool(repo, ['--force', '--path', 'a'])
+            if rc2 != 0:
+                res['failures'].append(('C12', f'--force did not bypass the checks for {applied}'))
+            count('force-bypass-checked')
+        return res
+    except Exception as e:
+        res['error'] = repr(e)[:400]
+        return res
+    finally:
+        shutil.rmtree(root, ignore_errors=True)
